@@ -394,7 +394,7 @@ func checkC05(c *core.Ctx) {
 	c.SetRule("per small generated history: every packet index x {fin, rst, err, eof, zero-length, out-of-sequence, short, cut, injected unsupported/invalid event, injected well-formed rows event with an undecodable cell in its before / after / only image, master-side cancel} x pacing {far-ahead, lock-step} x handler {fast, slow}; cancel while the master withholds packet k (reader waiting for the network); cancel while the handler is blocked at transaction j with the master far ahead (reader holding an event); handler error / in-handler cancel at every transaction; mapper failures; 8 kinds of attempts that fail before a connection or reader exists; clean EOF; transport read error — each repeated, in -race builds under GOMAXPROCS 1/2/4/16. Monitors: quiescent-stuck rule on Stream, on the first and second Error(), leftover library goroutines, client socket closed, handler guard (in-flight counter, streamActive), race log. distinct by (history, spec, rep, pass); non-trivial iff the scripted stop was reached")
 	c.Assume("Error() is only called after Stream returned")
 	c.Assume("race freedom = no report from the Go race detector on these executions")
-	nh := c.N(3, 30)
+	nh := c.N(5, 30)
 	reps := c.N(2, 6)
 	if c.Replay != "" {
 		var w struct {
